@@ -96,113 +96,209 @@ func c06LengthFormula(r *core.Run, ef *errFlow, pkgs []pkgCodec) {
 			continue // width of the prefix depends on the variant; not covered
 		}
 		fn := pc.write
-		// follow the success path from the entry; collect writes; bail out on any branch that is not an error check
-		b := fn.Blocks[0]
-		seen := map[*ssa.BasicBlock]bool{}
-		var writes []*ssa.Call
-		straight := true
-		reason := ""
-	walk:
-		for b != nil && !seen[b] {
-			seen[b] = true
+		// writers with channel writes inside a loop, or that delegate to helpers/field codecs, are not covered
+		skip := ""
+		for _, b := range fn.Blocks {
 			for _, in := range b.Instrs {
-				switch x := in.(type) {
-				case *ssa.Call:
-					if _, isL := sb.letterOf(x); isL {
-						writes = append(writes, x)
-					} else if sb.takesChannel(x) {
-						straight, reason = false, "delegates to "+calleeKey(x)
-						break walk
+				c, ok := in.(*ssa.Call)
+				if !ok {
+					continue
+				}
+				if l, isL := sb.letterOf(c); isL {
+					if _, loop := core.InnermostLoop(b); loop != nil {
+						skip = "writes inside a loop"
 					}
-				case *ssa.If:
-					if _, nn, ok := core.ErrNilTest(x.Cond); ok {
-						if nn {
-							b = b.Succs[1]
-						} else {
-							b = b.Succs[0]
-						}
-						continue walk
+					if l == "FMT" || l == "DAT" {
+						skip = "field codecs"
 					}
-					// a trailing consistency check `if n != length { return error }` after all writes is fine
-					after := false
-					for _, s := range b.Succs {
-						for bb := range dominatedRegion(s) {
-							for _, in2 := range bb.Instrs {
-								if c, ok := in2.(*ssa.Call); ok {
-									if _, isL := sb.letterOf(c); isL {
-										after = true
-									}
-								}
+				} else if sb.takesChannel(c) {
+					skip = "delegates to " + calleeKey(c)
+				}
+			}
+		}
+		if skip != "" {
+			r.Note("R06.7 not applicable to %s: %s", pc.name, skip)
+			continue
+		}
+		type pathRes struct {
+			declared, actual linForm
+			conds            string
+			pos              token.Pos
+		}
+		var results []pathRes
+		applicable := true
+		complete := core.EnumPaths(fn.Blocks[0], func(b *ssa.BasicBlock) bool { return false }, nil, 3000, func(pa core.Path, ended bool) {
+			last := pa.Blocks[len(pa.Blocks)-1]
+			ret, isRet := last.Instrs[len(last.Instrs)-1].(*ssa.Return)
+			if !isRet {
+				return
+			}
+			rv := core.RetVals(ret)
+			if len(rv) > 0 && freshError(rv[len(rv)-1]) {
+				return
+			}
+			// success path: no error edge taken, and consistent decisions for syntactically equal conditions
+			decided := map[string]bool{}
+			var cs []string
+			for _, c := range pa.Conds {
+				if _, nn, isErr := core.ErrNilTest(c.If.Cond); isErr {
+					if nn == c.Pol {
+						return // error edge
+					}
+					continue
+				}
+				k := core.Expr(c.If.Cond)
+				if prev, has := decided[k]; has && prev != c.Pol {
+					return // infeasible: the same condition decided both ways
+				}
+				decided[k] = c.Pol
+				cs = append(cs, fmt.Sprintf("%s=%v", k, c.Pol))
+			}
+			// position of each block in the path, for φ resolution
+			idx := map[*ssa.BasicBlock]int{}
+			for i, b := range pa.Blocks {
+				idx[b] = i
+			}
+			var resolve func(v ssa.Value, d int) ssa.Value
+			resolve = func(v ssa.Value, d int) ssa.Value {
+				if ph, ok := v.(*ssa.Phi); ok && d < 8 {
+					if i, on := idx[ph.Block()]; on && i > 0 {
+						pred := pa.Blocks[i-1]
+						for j, pr := range ph.Block().Preds {
+							if pr == pred {
+								return resolve(ph.Edges[j], d+1)
 							}
 						}
 					}
-					if after {
-						straight, reason = false, "writes under a data-dependent branch"
-						break walk
+				}
+				return v
+			}
+			var lin func(v ssa.Value, d int) linForm
+			lin = func(v ssa.Value, d int) linForm {
+				v = resolve(v, 0)
+				lf := linForm{terms: map[string]int{}, ok: true}
+				if d > 14 {
+					return linForm{why: "expression too deep"}
+				}
+				if c, ok := core.ConstInt64(v); ok {
+					lf.c = c
+					return lf
+				}
+				switch x := v.(type) {
+				case *ssa.Convert:
+					return lin(x.X, d+1)
+				case *ssa.BinOp:
+					if x.Op != token.ADD {
+						return linForm{why: "operator " + x.Op.String()}
 					}
-					b = nil
-					continue walk
-				case *ssa.Jump:
-					b = b.Succs[0]
-					continue walk
-				case *ssa.Return:
-					b = nil
-					continue walk
+					a, b := lin(x.X, d+1), lin(x.Y, d+1)
+					if !a.ok {
+						return a
+					}
+					if !b.ok {
+						return b
+					}
+					a.c += b.c
+					for k, n := range b.terms {
+						a.terms[k] += n
+					}
+					return a
+				case *ssa.Call:
+					if arg, isLen := isLenCall(x); isLen {
+						if k, ok := lenTermKey(fn, arg); ok {
+							lf.terms[k] = 1
+							return lf
+						}
+						return linForm{why: "len of " + core.Expr(arg)}
+					}
+				}
+				return linForm{why: "term " + core.Expr(v)}
+			}
+			var writes []*ssa.Call
+			for _, b := range pa.Blocks {
+				for _, in := range b.Instrs {
+					if c, ok := in.(*ssa.Call); ok {
+						if _, isL := sb.letterOf(c); isL {
+							writes = append(writes, c)
+						}
+					}
 				}
 			}
-			break
-		}
-		if !straight || len(writes) < 3 {
-			if reason != "" {
-				r.Note("R06.7 not applicable to %s: %s", pc.name, reason)
+			if len(writes) < 3 {
+				applicable = false
+				return
 			}
-			continue
-		}
-		// writes[0] = token, writes[1] = length prefix (2 or 4 bytes of a computed int)
-		l0, _ := sb.letterOf(writes[0])
-		l1, _ := sb.letterOf(writes[1])
-		if l0 != "1" || (l1 != "2" && l1 != "4") {
-			continue
-		}
-		arg := writes[1].Call.Args[len(writes[1].Call.Args)-1]
-		declared := linearOf(fn, arg, 0)
-		if !declared.ok || (len(declared.terms) == 0 && declared.c == 0) {
-			continue // the second field is not a computed length (e.g. a plain value)
-		}
-		if _, isConst := core.ConstInt64(core.Strip(arg)); isConst && len(writes) == 3 {
-			// `length = k` followed by one k-byte field is covered below as well
-		}
-		actual := linForm{terms: map[string]int{}, ok: true}
-		for _, w := range writes[2:] {
-			l, _ := sb.letterOf(w)
-			switch l {
-			case "1", "2", "4", "8":
-				actual.c += widthOfLetter(l)
-			case "S":
-				a := w.Call.Args[len(w.Call.Args)-1]
-				k, ok := lenTermKey(fn, a)
-				if !ok {
-					actual.ok, actual.why = false, "variable field "+core.Expr(a)
-				} else {
-					actual.terms[k]++
+			l0, _ := sb.letterOf(writes[0])
+			l1, _ := sb.letterOf(writes[1])
+			if l0 != "1" || (l1 != "2" && l1 != "4") {
+				applicable = false
+				return
+			}
+			arg := writes[1].Call.Args[len(writes[1].Call.Args)-1]
+			declared := lin(arg, 0)
+			if !declared.ok || (len(declared.terms) == 0 && declared.c == 0) {
+				applicable = false
+				return
+			}
+			if _, isField := lenTermKeyOfValue(fn, arg); isField {
+				applicable = false // the second field is a plain value of the package, not a computed length
+				return
+			}
+			actual := linForm{terms: map[string]int{}, ok: true}
+			for _, w := range writes[2:] {
+				l, _ := sb.letterOf(w)
+				switch l {
+				case "1", "2", "4", "8":
+					actual.c += widthOfLetter(l)
+				case "S":
+					a := w.Call.Args[len(w.Call.Args)-1]
+					if k, ok := lenTermKey(fn, a); ok {
+						actual.terms[k]++
+					} else if cst, isC := core.Strip(a).(*ssa.Const); isC && cst.Value != nil {
+						actual.c += int64(len(constString(cst)))
+					} else {
+						actual.ok, actual.why = false, "variable field "+core.Expr(a)
+					}
 				}
-			default:
-				actual.ok, actual.why = false, "field codec "+l
 			}
+			if !actual.ok {
+				applicable = false
+				return
+			}
+			results = append(results, pathRes{declared, actual, strings.Join(cs, ", "), writes[1].Pos()})
+		})
+		if !complete || !applicable || len(results) == 0 {
+			r.Note("R06.7 not applicable to %s (no computed length prefix, or shape outside the rule)", pc.name)
+			continue
 		}
 		key := pc.name + ": declared length = bytes written after it"
-		if !actual.ok {
-			r.Note("R06.7 not applicable to %s: %s", pc.name, actual.why)
-			continue
-		}
-		same := declared.c == actual.c && len(declared.terms) == len(actual.terms)
-		for k, n := range declared.terms {
-			if actual.terms[k] != n {
-				same = false
+		bad := ""
+		var pos token.Pos
+		for _, pr := range results {
+			pos = pr.pos
+			same := pr.declared.c == pr.actual.c && len(pr.declared.terms) == len(pr.actual.terms)
+			for k, n := range pr.declared.terms {
+				if pr.actual.terms[k] != n {
+					same = false
+				}
+			}
+			if !same {
+				bad = "the length prefix is written as " + pr.declared.String() + " but the fields written after it take " + pr.actual.String() + " bytes"
+				if pr.conds != "" {
+					bad += " (when " + pr.conds + ")"
+				}
+				bad += ": the reader's own length check rejects what the writer produced"
 			}
 		}
-		r.Check(same, "R06.7", key, writes[1].Pos(),
-			"length prefix = "+declared.String()+" = sum of the widths written after it",
-			"the length prefix is written as "+declared.String()+" but the fields written after it take "+actual.String()+" bytes: the reader's own length check rejects what the writer produced")
+		r.Check(bad == "", "R06.7", key, pos, fmt.Sprintf("declared length equals the widths written after it on all %d success paths (e.g. %s)", len(results), results[0].declared.String()), bad)
 	}
+}
+
+// lenTermKeyOfValue: v (after conversions) is directly a field of the package (a stored value, not a computed length).
+func lenTermKeyOfValue(fn *ssa.Function, v ssa.Value) (string, bool) {
+	v = core.Strip(v)
+	if f, _ := core.FieldLoad(v); f != nil {
+		return f.Name(), true
+	}
+	return "", false
 }
